@@ -25,4 +25,20 @@ Section EqSound.
     cbn [snd] in Heq. apply Nat.eqb_eq in Heq. subst j'.
     destruct H as (_ & _ & _ & Hv). destruct (Hv r) as [H1 H2]. rewrite <- H1, <- H2. reflexivity.
   Qed.
+
+  (* ... also for trees with transformed oracles anywhere ([good], FlattenSem.v) *)
+  Theorem eq_sound_o : forall (a : arena R) i j,
+    arena_wf a -> base_ok O a -> i < length a -> j < length a ->
+    good O osem a i -> good O osem a j ->
+    snd (tree_eq O a i j) = true ->
+    forall r, val O osem a i r = val O osem a j r.
+  Proof.
+    intros a i j Hwf Hb Hi Hj Hni Hnj Heq r.
+    pose proof (cooptimize_sem_o uf bf pow_1 root_1 osem a i j Hwf Hb Hi Hj Hni Hnj) as H.
+    unfold tree_eq in Heq.
+    destruct (optimized_helper O a nil i) as [st1 i'].
+    destruct (optimized_helper O (st_arena st1) (st_canon st1) j) as [st2 j'].
+    cbn [snd] in Heq. apply Nat.eqb_eq in Heq. subst j'.
+    destruct H as (_ & _ & _ & Hv). destruct (Hv r) as [H1 H2]. rewrite <- H1, <- H2. reflexivity.
+  Qed.
 End EqSound.
